@@ -97,6 +97,14 @@ fn selftest(max_nodes: u64) -> i32 {
         eprintln!("MACHINERY-ERROR: {}", e);
         return 2;
     }
+    if max_nodes >= 20_000_000 {
+        // full self-test (./check build): also the lock-model pipeline (spin + gcc)
+        if let Err(e) = props::c09_locks::selftest() {
+            eprintln!("MACHINERY-ERROR: {}", e);
+            return 2;
+        }
+        println!("[selftest] lock-model pipeline: spin finds the deadlock of an inverted lock order and none for a consistent one");
+    }
     match refchess::selftest(max_nodes) {
         Ok(n) => {
             println!("[selftest] reference model reproduces {} published perft entries (<= {} nodes each) in {:.1}s", n, max_nodes, t.elapsed().as_secs_f64());
